@@ -76,14 +76,13 @@ Definition drivers_stay (s s' : state) : Prop :=
 Definition wires_stay (s : state) (o : op) (s' : state) : Prop :=
   forall p n w, p < nobj s -> tget (owires s p) n = Some w -> subject o <> Some w -> tget (owires s' p) n = Some w.
 
-(* what a raising call must leave behind, by the conflict it reports: the item named by the error is registered
-   before and after the call (for a duplicate wire: and it is not the wire being created / moved) *)
-Definition kept (s : state) (o : op) (s' : state) (c : conflict) : Prop :=
+(* the item a raising call names in its error: it is registered (and, the state being unchanged, stays so) *)
+Definition names_existing (s : state) (c : conflict) : Prop :=
   match c with
-  | CChild p n => s' = s /\ exists ch, tget (ochildren s p) n = Some ch
-  | CDriver w => s' = s /\ exists q, wsource s w = Some q
-  | CWire p n => exists w', tget (owires s p) n = Some w' /\ tget (owires s' p) n = Some w' /\ subject o <> Some w'
-  | CKey _ _ => s' = s
+  | CChild p n => exists ch, tget (ochildren s p) n = Some ch
+  | CDriver w => exists q, wsource s w = Some q
+  | CWire p n => exists w', tget (owires s p) n = Some w'
+  | CKey _ _ => False          (* the KeyError of `del` cannot happen in a constructed netlist *)
   end.
 
 (* ---------------------------------------------------------------- integrity *)
@@ -93,10 +92,10 @@ Inductive below (s : state) : nat -> nat -> Prop :=
 | below_step : forall o n c o', In (n, c) (ochildren s o) -> below s c o' -> below s o o'.
 
 Definition undriven (s : state) (q : nat) : Prop := wsource s (pwire s q) = None.
-(* the source port of q's wire is in neither inPorts nor outPorts of its own block (checkPort) *)
+(* the source port of q's wire is in none of inPorts / outPorts / inOutPorts of its own block (checkPort) *)
 Definition stray_source (s : state) (q : nat) : Prop :=
   exists sp, wsource s (pwire s q) = Some sp /\
-             ~ In sp (oin s (pparent s sp)) /\ ~ In sp (oout s (pparent s sp)).
+             ~ In sp (oin s (pparent s sp)) /\ ~ In sp (oout s (pparent s sp)) /\ ~ In sp (oinout s (pparent s sp)).
 (* the ports checkIntegrity(h) visits: inPorts and outPorts (not inOutPorts) of every block below h *)
 Definition visited (s : state) (h q : nat) : Prop :=
   exists o, below s h o /\ (In q (oin s o) \/ In q (oout s o)).
@@ -137,6 +136,7 @@ Definition unique_wires_b (s : state) : bool :=
           (seq 0 (nobj s)).
 
 Definition registered_b (s : state) (w : nat) : bool := oeqb (tget (owires s (wparent s w)) (wname s w)) (Some w).
+Definition all_registered_b (s : state) : bool := forallb (registered_b s) (seq 0 (nwire s)).
 Definition subject_registered_b (s : state) (o : op) : bool :=
   match subject o with Some w => registered_b s w | None => true end.
 
@@ -171,11 +171,4 @@ Definition valid_op (s : state) (o : op) : Prop :=
   | AddIn o _ w | AddOut o _ w | AddInOut o _ w => o < nobj s /\ w < nwire s
   | Rename w _ => w < nwire s
   | Reparent w p | ReparentAndRename w p _ => w < nwire s /\ p < nobj s
-  end.
-
-(* no rename / reparent in the run raised *)
-Fixpoint moves_succeed (s : state) (ops : list op) : Prop :=
-  match ops with
-  | [] => True
-  | o :: r => (subject o <> None -> snd (step s o) = Ok) /\ moves_succeed (exec s o) r
   end.
